@@ -394,8 +394,11 @@ Lemma stranded_partial_thm : forall minus ez ref ivs, In ez [0; 1; 2] ->
 Proof.
   intros minus ez ref ivs Hez Href Hiv Hsz.
   apply (stranded_all complements domain_pinned where_rows grid_current minus ez ref ivs Hez Href (iv_valid_strand ref ivs Hiv)).
-  intros m x y Hm Hx. unfold where_rows, where_pinned.
-  rewrite Hm, Hx, (total_bases_len ref ivs Hiv). apply Z.ltb_lt in Hsz. rewrite Hsz. reflexivity.
+  intros m x y Hm Hx. unfold where_rows.
+  (* holds for either definition of where_rows (the one-line switch in Model/C14.v) *)
+  first [ reflexivity
+        | unfold where_pinned; rewrite Hm, Hx, (total_bases_len ref ivs Hiv);
+          apply Z.ltb_lt in Hsz; rewrite Hsz; reflexivity ].
 Qed.
 Lemma stranded_pinned_refuted_thm :
   exists ref ivs, Forall (fun c => In c upper5) ref /\ Forall (iv_valid ref) ivs
@@ -452,7 +455,7 @@ Lemma len_concat_codons {A} (crow : list (list A)) :
   Forall (fun cd => length cd = 3%nat) crow -> len (concat crow) = len crow * 3.
 Proof.
   induction 1 as [|cd crow Hcd _ IH]; [reflexivity|].
-  simpl. rewrite len_app, IH, len_cons. unfold len at 1. rewrite Hcd. lia.
+  cbn [concat]. rewrite len_app, IH, len_cons. unfold len at 1. rewrite Hcd. lia.
 Qed.
 
 Lemma translate_thm : forall crows : list (list (list Z)),
@@ -466,9 +469,9 @@ Proof.
   { eapply Forall_impl; [|exact H]. intros r Hr. eapply Forall_impl; [|exact Hr]. intros cd Hcd. apply codon_facts, Hcd. }
   split; [|split].
   - unfold model_translate. rewrite concat_concat.
-    rewrite (alpha_encode_ok tcag acgt8) by
-      (try exact tcag_grid; apply Forall_concat; apply Forall_concat in H;
-       eapply Forall_impl; [|exact H]; intros cd Hcd; apply codon_facts, Hcd).
+    rewrite (alpha_encode_ok tcag acgt8); [|exact tcag_grid|].
+    2:{ apply Forall_concat. pose proof (Forall_concat _ _ H) as Hc.
+        eapply Forall_impl; [|exact Hc]. intros cd Hcd. apply codon_facts, Hcd. }
     replace (forallb (fun l => l mod 3 =? 0) (map len (map (@concat Z) crows))) with true.
     2:{ symmetry. apply forallb_forall. intros l Hl. rewrite map_map in Hl. apply in_map_iff in Hl.
         destruct Hl as [crow [<- Hc]]. rewrite Forall_forall in H3. rewrite (len_concat_codons crow (H3 crow Hc)).
